@@ -18,10 +18,13 @@ import gen_designs
 import nlx
 
 RULE = ('random API-built designs (registers with/without reset_value, read/write memories with initial '
+        'contents, pairs of distinct MemBlocks / RomBlocks deliberately given the SAME name with different ports and '
         'contents, ROMs from list/dict/function, ROMs with pad_with_zeros=True and PARTIAL romdata (short list/tuple, '
         'dict with holes) read inside and outside the data, all 16 ops, widths 1..130) x {copy_block, synthesize, '
         'optimize}(update_working_block=False) x {source is / is not the working block} x 2 edit/simulate '
-        'sequences (add net, rename wire, remove wire+net, set reset_value, interleaved simulation with '
+        'sequences (add net, rename wire, remove wire+net, set reset_value, in-place mutation of every Block-level '
+        'container [legal_ops, memblock_by_name, wirevector_by_name, rtl_assert_dict, io/reg/mem_map] followed by an '
+        'edit+sanity_check+simulate of the OTHER block, interleaved simulation with '
         'memory writes); distinct by (design hash, api, scenario, edit script); non-trivial when the design '
         'has a register or memory and at least half of its outputs vary during the run')
 IMPORTS = ('From PyRTL Require Import Netlist.Sem Netlist.WFDefs Netlist.SpecHarness Pass.Copy.')
@@ -79,6 +82,16 @@ def wire_objects(block):
         for w in n.args + n.dests:
             objs[id(w)] = w
     return objs
+
+
+def shared_containers(a, b):
+    """[(attr of a, attr of b)] whose values are one and the same mutable container object"""
+    out = []
+    ca = {id(v): k for k, v in vars(a).items() if isinstance(v, (set, dict, list))}
+    for k, v in vars(b).items():
+        if isinstance(v, (set, dict, list)) and id(v) in ca:
+            out.append((ca[id(v)], k))
+    return sorted(out)
 
 
 def rom_table(m):
@@ -373,6 +386,62 @@ def apply_edit(block, kind, rng, k):
 EDIT_KINDS = ['add_net', 'rename', 'remove', 'set_reset']
 
 
+def probe_edit(block, inputs, memmap_by_id, src_mems, with_sim):
+    """edit + sanity_check (+ one simulated step) of `block`, then undo: must work whatever was done to ANOTHER block"""
+    logic0, wires0 = set(block.logic), set(block.wirevector_set)
+    try:
+        cands = sorted((w for w in block.wirevector_set if not isinstance(w, (pyrtl.Output, pyrtl.Const))),
+                       key=lambda w: w.name)
+        with pyrtl.set_working_block(block, no_sanity_check=True):
+            o = pyrtl.Output(len(cands[0]), 'c11_probe')
+            o <<= ~cands[0]
+        block.sanity_check()
+        if with_sim:
+            simulate(block, inputs[:1], memmap_by_id, src_mems=src_mems)
+    finally:
+        for n in set(block.logic) - logic0:
+            block.logic.remove(n)
+        for w in set(block.wirevector_set) - wires0:
+            block.remove_wirevector(w)
+
+
+def container_mutations(X, rng):
+    """[(label, mutate, restore)]: in-place mutation of every mutable Block-level container a copy could alias"""
+    muts = []
+    ops = sorted(X.legal_ops)
+    gone = set(rng.sample(ops, min(len(ops), rng.randint(1, 3)))) | {'~', 'w'}
+    gone &= set(ops)
+    if rng.random() < 0.5:
+        muts.append(('legal_ops.difference_update(%s)' % ''.join(sorted(gone)),
+                     lambda: X.legal_ops.difference_update(gone), lambda: X.legal_ops.update(gone)))
+    else:
+        def discard_all():
+            for c in gone:
+                X.legal_ops.discard(c)
+        muts.append(('legal_ops.discard(%s)' % ''.join(sorted(gone)), discard_all, lambda: X.legal_ops.update(gone)))
+    saved_m = dict(X.memblock_by_name)
+    muts.append(('memblock_by_name.clear()+junk', lambda: (X.memblock_by_name.clear(),
+                                                            X.memblock_by_name.__setitem__('c11_junk', None)),
+                 lambda: (X.memblock_by_name.clear(), X.memblock_by_name.update(saved_m))))
+    saved_w = dict(X.wirevector_by_name)
+    muts.append(('wirevector_by_name.clear()+junk', lambda: (X.wirevector_by_name.clear(),
+                                                              X.wirevector_by_name.__setitem__('c11_junk', None)),
+                 lambda: (X.wirevector_by_name.clear(), X.wirevector_by_name.update(saved_w))))
+    if hasattr(X, 'rtl_assert_dict'):
+        saved_a = dict(X.rtl_assert_dict)
+        muts.append(('rtl_assert_dict[junk]=..', lambda: X.rtl_assert_dict.__setitem__('c11_junk', Exception('x')),
+                     lambda: (X.rtl_assert_dict.clear(), X.rtl_assert_dict.update(saved_a))))
+    for attr in ('io_map', 'reg_map', 'mem_map'):
+        v = getattr(X, attr, None)
+        if isinstance(v, dict):
+            def mut(v=v):
+                v['c11_junk'] = []
+            def undo(v=v):
+                v.pop('c11_junk', None)
+            muts.append(('%s[junk]=[]' % attr, mut, undo))
+    return muts
+
+
 # ---------------------------------------------------------------- one (design, api, scenario)
 
 def build(ctx, i):
@@ -388,7 +457,15 @@ def build(ctx, i):
         d = gen_designs.make_design(rng, wide_prob=0.25, ops_subset=ops, n_ops=rng.randint(4, 12))
     ncyc = rng.randint(3, 6 if ctx.tier == 'quick' else 12)
     holes = add_padded_rom(rng, d) if rng.random() < 0.6 else None
+    dup = add_same_named_memories(rng, d) if rng.random() < 0.5 else None
     _, memmap, inputs = gen_designs.make_stimulus(rng, d, ncyc)
+    if dup is not None:
+        # different initial contents, and both read at an initialised address in cycle 0
+        (m1, m2), bw = dup
+        v1 = gen_designs.boundary_value(rng, bw)
+        memmap[m1] = {0: v1, 1: v1 ^ 1}
+        memmap[m2] = {0: v1 ^ ((1 << bw) - 1), 1: v1}
+        inputs[0]['c11_da'] = 0
     if holes is not None:
         # make sure the run reads outside AND inside the romdata
         inside, outside = holes
@@ -398,6 +475,42 @@ def build(ctx, i):
         inputs[-1]['c11_ra'] = rng.choice(outside)
     memmap_by_id = {m.id: dict(c) for m, c in memmap.items()}
     return d, memmap, memmap_by_id, inputs
+
+
+def add_same_named_memories(rng, d):
+    """two DISTINCT MemBlocks deliberately given the same name (legal: names need not be unique), with different
+    ports and contents, and two distinct RomBlocks sharing another name with different data"""
+    aw = rng.randint(1, 3)
+    bw = rng.choice([1, 2, 4, 7])
+    with pyrtl.set_working_block(d.block, no_sanity_check=True):
+        da = pyrtl.Input(aw, 'c11_da')
+        dd = pyrtl.Input(bw, 'c11_dd')
+        m1 = pyrtl.MemBlock(bitwidth=bw, addrwidth=aw, name='c11_dupmem', max_read_ports=None, max_write_ports=1,
+                            asynchronous=True)
+        m2 = pyrtl.MemBlock(bitwidth=bw, addrwidth=aw, name='c11_dupmem', max_read_ports=None, max_write_ports=1,
+                            asynchronous=True)
+        o1 = pyrtl.Output(bw, 'c11_dup_out1')
+        o2 = pyrtl.Output(bw, 'c11_dup_out2')
+        o1 <<= m1[da]
+        o2 <<= m2[da]
+        m1[da] <<= dd                                                    # unconditional write port
+        m2[da] <<= pyrtl.MemBlock.EnabledWrite(~dd, enable=da[0])        # different data, enabled
+        size = 1 << aw
+        t1 = [gen_designs.boundary_value(rng, bw) for _ in range(size)]
+        t2 = [v ^ 1 for v in t1]
+        r1 = pyrtl.RomBlock(bitwidth=bw, addrwidth=aw, romdata=t1, name='c11_duprom', max_read_ports=None,
+                            asynchronous=True)
+        r2 = pyrtl.RomBlock(bitwidth=bw, addrwidth=aw, romdata={a: v for a, v in enumerate(t2)}, name='c11_duprom',
+                            max_read_ports=None, asynchronous=True)
+        o3 = pyrtl.Output(bw, 'c11_dup_out3')
+        o4 = pyrtl.Output(bw, 'c11_dup_out4')
+        o3 <<= r1[da]
+        o4 <<= r2[da]
+    d.inputs.extend([da, dd])
+    d.mems.extend([m1, m2])
+    d.roms.extend([r1, r2])
+    d.ops.append('same-named-memories')
+    return (m1, m2), bw
 
 
 def add_padded_rom(rng, d):
@@ -499,6 +612,10 @@ def check_one(ctx, i, api, scenario, src, memmap_by_id, inputs, base, chain=None
     if shared_w:
         viol('shared-wire-object:%s' % api, 'source and result of %s share %d wire object(s)' % (api, len(shared_w)),
              shared=sorted(wire_objects(src)[k].name for k in shared_w)[:5])
+    for a0, a1 in shared_containers(src, res):
+        viol('shared-block-container:%s:%s' % (api, a1),
+             'source.%s and result.%s of %s are the SAME %s object: an in-place change of one block\'s %s changes the other'
+             % (a0, a1, api, type(vars(res)[a1]).__name__, a1))
     shared_m = set(mem_objects(src)) & set(mem_objects(res))
     if shared_m:
         viol('shared-memory-object:%s' % api, 'source and result of %s share %d memory object(s)' % (api, len(shared_m)),
@@ -630,6 +747,25 @@ def edit_phase(ctx, i, api, scenario, d, res, memmap_by_id, inputs, rep_base):
                 ctx.spec_violation(sig, 'after %s, editing the %s (%s) changed the other block' % (api, x_name, desc),
                                    dict(rep_base, script=list(script_log), difference=fp_diff(fpY, fpY2)))
                 fpY = fpY2
+        # in-place mutation of X's Block-level containers, then edit + simulate Y
+        for mi, (label, mutate, restore) in enumerate(container_mutations(X, rng)):
+            mutate()
+            try:
+                script_log.append('%s: %s' % (x_name, label))
+                ctx.count('edits', 'container:' + label.split('.')[0].split('[')[0])
+                fpY2 = fingerprint(Y)
+                if fpY2 != fpY:
+                    ctx.spec_violation('shared-block-container:%s:%s' % (api, label.split('.')[0].split('[')[0]),
+                                       'after %s, the in-place change %s of the %s changed the other block' % (api, label, x_name),
+                                       dict(rep_base, script=list(script_log), difference=fp_diff(fpY, fpY2)))
+                try:
+                    probe_edit(Y, inputs, memmap_by_id, mems_of(src), with_sim=(mi == 0))
+                except (pyrtl.PyrtlError, pyrtl.PyrtlInternalError, KeyError, AttributeError, TypeError) as e:
+                    ctx.spec_violation('shared-block-container:%s:%s' % (api, label.split('.')[0].split('[')[0]),
+                                       'after %s and the in-place change %s of the %s, editing/simulating the OTHER block '
+                                       'fails: %r' % (api, label, x_name, e), dict(rep_base, script=list(script_log)))
+            finally:
+                restore()
         # interleaved simulation: X (with its memory writes) and Y step alternately
         ctx.count('edits_per_sequence', nedits)
         if baseY is None:
